@@ -228,6 +228,50 @@ theorem links_consistent_exec_thresholded {m : Pomdp} {vf : VF} (hz : ZeroBelow 
     execReturn m vf h id b = dot m.S b (val (entry vf h id)) :=
   links_consistent_exec (consistent_exact_of_zeroBelow hz hc) h id b hh hid
 
+/-! ## the tabulated evaluation the driver runs is `execReturn` -/
+
+theorem ofList_tauL (m : Pomdp) (b : List Rat) (a o s : Nat) (hs : s < m.S) :
+    ofList (tauL m b a o) s = tau m (ofList b) a o s := by
+  show (tauL m b a o).getD s 0 = tau m (ofList b) a o s
+  unfold tauL
+  rw [getD_eq_getElem' _ _ (by simpa using hs)]; simp
+
+theorem execReturn_congr (m : Pomdp) (vf : VF) : ∀ (h id : Nat) (b b' : Nat → Rat), (∀ s, s < m.S → b s = b' s) →
+    execReturn m vf h id b = execReturn m vf h id b' := by
+  intro h
+  induction h with
+  | zero =>
+    intro id b b' hb
+    simp only [execReturn, dot]
+    exact sumTo_congr (fun s hs => by rw [hb s hs])
+  | succ h ih =>
+    intro id b b' hb
+    simp only [execReturn, rewardB]
+    have h1 : sumTo m.S (fun s => b s * m.R s (entry vf (h+1) id).action) =
+        sumTo m.S (fun s => b' s * m.R s (entry vf (h+1) id).action) := sumTo_congr (fun s hs => by rw [hb s hs])
+    rw [h1]
+    congr 2
+    apply sumTo_congr
+    intro o _
+    apply ih
+    intro s1 _
+    unfold tau
+    rw [sumTo_congr (fun s hs => by rw [hb s hs])]
+
+theorem execFast_eq (m : Pomdp) (vf : VF) : ∀ (h id : Nat) (b : List Rat),
+    execFast m vf h id b = execReturn m vf h id (ofList b) := by
+  intro h
+  induction h with
+  | zero => intro id b; rfl
+  | succ h ih =>
+    intro id b
+    simp only [execFast, execReturn]
+    congr 2
+    apply sumTo_congr
+    intro o _
+    rw [ih]
+    exact execReturn_congr m vf h _ _ _ (fun s hs => ofList_tauL m b _ o s hs)
+
 /-! ## the model as the Projecter sees it: no hypothesis on the observation table needed -/
 
 theorem differentSmall0_zero : differentSmall0 0 = false := by
